@@ -2,106 +2,56 @@
 C14 — "Completion offers the names that are in scope at the cursor, and only those".
 
 `GetCompleteVar` offers, in every scope of the chain from the cursor's smallest scope outwards, the
-declarations that START at or before the cursor.  For one scope (any declaration list):
-  * `complete_has_visible`  : every declaration visible under Lua's rule is offered;
-  * `complete_only_visible` : an offered declaration that is NOT visible has the cursor inside its own
-    declaring statement — finding class C14-K1 ('local abc = ab|'), and nothing else;
-  * `K1_witness`.
-For the whole chain of enclosing scopes and the typed prefix (any depth, any number of declarations):
+declarations that pass the position test of the resolver (`IsCorrectPosition`; since the repair 7e9e18b —
+before it: every declaration that STARTS at or before the cursor, which offered 'local abc = ab|' its own
+name, the former finding C14-K1).  For one declaration (`offered_iff_visible`) the test IS Lua's visibility
+rule (Props/C05 `position_test_exact`).  For the whole chain of enclosing scopes and the typed prefix (any
+depth, any number of declarations):
   * `chain_offers_every_visible` : every declaration of an enclosing scope that is visible under Lua's rule and
     whose name starts with the prefix is in the offered list;
-  * `chain_offers_only_visible_or_K1` : every offered declaration has the prefix, belongs to an enclosing scope,
-    and is visible or has the cursor inside its own declaring statement (class K1) — in particular a local
-    declared later, and (because only enclosing scopes are in the chain) a local of a block that does not
-    enclose the cursor, is never offered.
-Which scopes form the chain (FindMinScope) is validated by correspondence.
+  * `chain_offers_only_visible` : every offered declaration has the prefix, belongs to an enclosing scope and
+    is visible — in particular a local declared later (`declared_later_not_offered`), a local inside its own
+    declaring statement (`own_statement_not_offered`) and (because only enclosing scopes are in the chain) a
+    local of a block that does not enclose the cursor, is never offered.
+Which scopes form the chain (FindMinScope) is Props/C05 `chainIn_path`; the tree construction is validated by
+correspondence.
 -/
 import LuaHelper.Props.C05
 namespace LuaHelper.C14
 open LuaHelper.Lex LuaHelper.Scope LuaHelper.C05
 
 /-- the per-scope candidate test of `GetCompleteVar` -/
-def offered (d : FDecl) (line col : Int) : Bool :=
-  d.var.loc.sl < line || (d.var.loc.sl == line && d.var.loc.sc ≤ col)
+def offered (d : Var) (line col : Int) : Bool := isCorrectPosition d (pt line col)
 
 /-- Lua visibility for completion: the declaring statement has ended (a `local function` is visible
     inside its own body) -/
-def visible (d : FDecl) (line col : Int) : Bool := visibleAt d line col
+def visible (d : Var) (line col : Int) : Bool := visibleAt d line col
 
-theorem complete_has_visible (d : FDecl) (hwf : d.wf) (line col : Int) (hv : visible d line col = true) :
-    offered d line col = true := by
-  obtain ⟨hline, hend, _⟩ := hwf
-  unfold visible visibleAt afterStmt at hv
-  unfold offered
-  cases hr : d.var.ref with
-  | func l =>
-    simp only [hr] at hv
-    by_cases hc : isContainLoc l d.var.loc = true
-    · simp only [hc, if_true] at hv
-      unfold isBeforeLoc pt at hv
-      simpa using hv
-    · simp only [hc, Bool.false_eq_true, if_false] at hv
-      simp at hv ⊢
-      omega
-  | none => simp only [hr] at hv; simp at hv ⊢; omega
-  | other => simp only [hr] at hv; simp at hv ⊢; omega
-  | name l => simp only [hr] at hv; simp at hv ⊢; omega
-  | call l => simp only [hr] at hv; simp at hv ⊢; omega
-#print axioms complete_has_visible
-
-/-- the cursor lies inside the declaring statement of `d`, at or after the start of its name -/
-def insideOwnStatement (d : FDecl) (line col : Int) : Bool :=
-  offered d line col && !afterStmt d line col
-
-theorem complete_only_visible (d : FDecl) (line col : Int)
-    (ho : offered d line col = true) (hv : visible d line col = false) :
-    insideOwnStatement d line col = true := by
-  unfold insideOwnStatement
-  simp only [ho, Bool.true_and, Bool.not_eq_eq_eq_not, Bool.not_true]
-  unfold visible visibleAt at hv
-  cases hr : d.var.ref with
-  | func l =>
-    simp only [hr] at hv
-    by_cases hc : isContainLoc l d.var.loc = true
-    · simp only [hc, if_true] at hv
-      unfold offered at ho
-      unfold isBeforeLoc pt at hv
-      simp at ho hv
-      omega
-    · simp only [hc, Bool.false_eq_true, if_false] at hv; exact hv
-  | none => simp only [hr] at hv; exact hv
-  | other => simp only [hr] at hv; exact hv
-  | name l => simp only [hr] at hv; exact hv
-  | call l => simp only [hr] at hv; exact hv
-#print axioms complete_only_visible
-
-/-- `local abc = ab|` (cursor at column 14 of line 1, statement ends at column 14): offered, not visible -/
-theorem K1_witness :
-    let d : FDecl := { var := { name := [97, 98, 99], loc := ⟨1, 6, 1, 9⟩, ref := .name ⟨1, 12, 1, 14⟩ }, endLine := 1, endCol := 14 }
-    offered d 1 14 = true ∧ visible d 1 14 = false ∧ insideOwnStatement d 1 14 = true := by decide
-#print axioms K1_witness
+/-- a declaration is offered exactly when it is visible -/
+theorem offered_iff_visible (d : Var) (hwf : wfVar d) (line col : Int) : offered d line col = visible d line col :=
+  position_test_exact d hwf line col
+#print axioms offered_iff_visible
 
 /-! ### the whole chain of enclosing scopes, with the typed prefix -/
 
 /-- what `GetCompleteVar` collects walking the chain outwards, filtered by the typed prefix -/
-def offeredChain (chain : List (List FDecl)) (pre : Bytes) (line col : Int) : List FDecl :=
-  chain.flatMap fun ds => ds.filter fun d => offered d line col && pre.isPrefixOf d.var.name
+def offeredChain (chain : List (List Var)) (pre : Bytes) (line col : Int) : List Var :=
+  chain.flatMap fun ds => ds.filter fun d => offered d line col && pre.isPrefixOf d.name
 
-theorem chain_offers_every_visible (chain : List (List FDecl)) (hwf : ∀ ds ∈ chain, ∀ d ∈ ds, d.wf)
-    (pre : Bytes) (line col : Int) (ds : List FDecl) (hds : ds ∈ chain) (d : FDecl) (hd : d ∈ ds)
-    (hv : visible d line col = true) (hp : pre.isPrefixOf d.var.name = true) :
+theorem chain_offers_every_visible (chain : List (List Var)) (hwf : ∀ ds ∈ chain, ∀ d ∈ ds, wfVar d)
+    (pre : Bytes) (line col : Int) (ds : List Var) (hds : ds ∈ chain) (d : Var) (hd : d ∈ ds)
+    (hv : visible d line col = true) (hp : pre.isPrefixOf d.name = true) :
     d ∈ offeredChain chain pre line col := by
   unfold offeredChain
   rw [List.mem_flatMap]
   refine ⟨ds, hds, ?_⟩
   rw [List.mem_filter]
-  exact ⟨hd, by simp [complete_has_visible d (hwf ds hds d hd) line col hv, hp]⟩
+  exact ⟨hd, by simp [offered_iff_visible d (hwf ds hds d hd) line col, hv, hp]⟩
 #print axioms chain_offers_every_visible
 
-theorem chain_offers_only_visible_or_K1 (chain : List (List FDecl)) (pre : Bytes) (line col : Int) (d : FDecl)
-    (h : d ∈ offeredChain chain pre line col) :
-    (∃ ds ∈ chain, d ∈ ds) ∧ pre.isPrefixOf d.var.name = true ∧
-      (visible d line col = true ∨ insideOwnStatement d line col = true) := by
+theorem chain_offers_only_visible (chain : List (List Var)) (hwf : ∀ ds ∈ chain, ∀ d ∈ ds, wfVar d)
+    (pre : Bytes) (line col : Int) (d : Var) (h : d ∈ offeredChain chain pre line col) :
+    (∃ ds ∈ chain, d ∈ ds) ∧ pre.isPrefixOf d.name = true ∧ visible d line col = true := by
   unfold offeredChain at h
   rw [List.mem_flatMap] at h
   obtain ⟨ds, hds, hd⟩ := h
@@ -109,14 +59,13 @@ theorem chain_offers_only_visible_or_K1 (chain : List (List FDecl)) (pre : Bytes
   obtain ⟨hd, hf⟩ := hd
   simp only [Bool.and_eq_true] at hf
   refine ⟨⟨ds, hds, hd⟩, hf.2, ?_⟩
-  cases hv : visible d line col with
-  | true => exact Or.inl rfl
-  | false => exact Or.inr (complete_only_visible d line col hf.1 hv)
-#print axioms chain_offers_only_visible_or_K1
+  rw [← offered_iff_visible d (hwf ds hds d hd) line col]
+  exact hf.1
+#print axioms chain_offers_only_visible
 
 /-- a local declared after the cursor is never offered, whatever the chain -/
-theorem declared_later_not_offered (chain : List (List FDecl)) (pre : Bytes) (line col : Int) (d : FDecl)
-    (hlater : line < d.var.loc.sl ∨ (line = d.var.loc.sl ∧ col < d.var.loc.sc)) :
+theorem declared_later_not_offered (chain : List (List Var)) (pre : Bytes) (line col : Int) (d : Var)
+    (hlater : line < d.loc.sl ∨ (line = d.loc.sl ∧ col < d.loc.sc)) :
     d ∉ offeredChain chain pre line col := by
   intro h
   unfold offeredChain at h
@@ -126,9 +75,16 @@ theorem declared_later_not_offered (chain : List (List FDecl)) (pre : Bytes) (li
   have ho := hd.2
   simp only [Bool.and_eq_true] at ho
   have := ho.1
-  unfold offered at this
+  unfold offered isCorrectPosition isBeforeLoc pt at this
   simp at this
   omega
 #print axioms declared_later_not_offered
+
+/-- the former finding C14-K1: `local abc = ab|` (cursor at column 14 of line 1, the end of the statement)
+    no longer offers `abc`; on the next line it does -/
+theorem own_statement_not_offered :
+    let d : Var := { name := [97, 98, 99], loc := ⟨1, 6, 1, 9⟩, ref := .name ⟨1, 12, 1, 14⟩, region := some ⟨1, 0, 1, 14⟩ }
+    offered d 1 14 = false ∧ offered d 2 0 = true := by decide
+#print axioms own_statement_not_offered
 
 end LuaHelper.C14
